@@ -10,8 +10,8 @@ import json, os
 import vcommon as V
 
 META = dict(
-    text="Lean 4 theorems (Props/C13.lean) prove for the model of the lexer and parser, for every text, every cutting of it into pieces (any number, empty pieces, cuts inside tokens/strings/comments/operators) and every earlier history of the parser, that the final status and the expression list equal those of the text delivered whole to a fresh parser (parse_chunks_eq_whole, reset_forgets via a simulation proved for EVERY parser program over the two input-reading instructions), that feeding the lexer in two parts is feeding the concatenation (lex_chunk), and that end of input never drops a pending atom or line comment (last_token_kept). The model is tied to zygo/lexer.go and zygo/parser.go by regenerated tables (regexp sources, enums, EscapeChar, every Lexer field is assigned in Reset) and by differential testing of the complete lexer state after every rune and of parse results at every cut position. Unit tests pause the parser at two hand-picked places; the theorem covers all of them. HISTORY CLAUSE on the real protocol: the suspended coroutine of an unfinished parse is part of the model (Model/Abandon.lean: the parser as a state machine driven call by call — ParseTokens, NewInput, EndInput, Stop, Reset, ResetAddNewInput — keeping the rest of the program as the coroutine, and what that program does when iter.Pull's stop() makes its yield return false: the five inline wait loops return SexpEnd without an error and their callers go on reading the lexer). Proved for every parser state, every suspended program and every reset route: after the reset the lexer holds exactly the new text and nothing else survives (abandoned_parse_consumes_nothing, start_forgets, protocol_reset_forgets); the statement orders that respect 'stop the coroutine before the lexer is reset / given input and before the reply is replaced' all give that state (good_orders_agree), the other orders do not (lexer_first_counterexample, reply_first_counterexample); the order of the statements in parser.go is regenerated on every run and must be one of the good ones (reset_stops_coroutine_first, yield_cleared_after_stop). The annotated parser is the parser of the chunking theorems (annotated_parser_is_the_parser), a coroutine is kept exactly when the answer is `more` (suspended_iff_more), and the kept program resumed on further input computes what the original program computes on the concatenation (suspended_program_is_rest_of_run). The `parse h`/`parse ei` ops run the real parser/interpreter through systematically enumerated histories of unfinished, failed and complete earlier texts x every reset route and require the result of a fresh parser / a twin interpreter.",
-    note="Trusted: Lean kernel; axioms propext/Classical.choice/Quot.sound; the hand-written model (tied by the lex/parse correspondence = testing, and by table theorems); regexp recognisers are hand-written for the regenerated source strings; strconv.ParseFloat is re-implemented exactly and compared bit for bit. `more iff unfinished` is stated in full (MoreIffUnfinished) but only checked on generated inputs (impl vs Spec.Unfinished), not proved. StepwiseIsRun (call-by-call protocol = delivery model with the pieces known in advance) is stated, not proved: both are computed on every history op and must agree. The unwinding semantics of a stopped coroutine (Model/Abandon.unwind) is hand-written after parser.go and validated by the correspondence only (incl. Stop() without reset, where the dying parse reads queued input); with the statement order 'lexer first' the same model reproduces the seeded defect C13-m3 on all 106586 history ops. A trailing top-level `-`/`+` is an unfinished PREFIX (the next token may be Inf; chunk independence forces the wait) but a finished text (fix C13-02: lone_sign_fixed, sign_at_end_of_finished_input).",
+    text="Lean 4 theorems (Props/C13.lean) prove for the model of the lexer and parser, for every text, every cutting of it into pieces (any number, empty pieces, cuts inside tokens/strings/comments/operators) and every earlier history of the parser, that the final status and the expression list equal those of the text delivered whole to a fresh parser (parse_chunks_eq_whole, reset_forgets via a simulation proved for EVERY parser program over the two input-reading instructions), that feeding the lexer in two parts is feeding the concatenation (lex_chunk), and that end of input never drops a pending atom or line comment (last_token_kept). The model is tied to zygo/lexer.go and zygo/parser.go by regenerated tables (regexp sources, enums, EscapeChar, every Lexer field is assigned in Reset) and by differential testing of the complete lexer state after every rune and of parse results at every cut position. Unit tests pause the parser at two hand-picked places; the theorem covers all of them. HISTORY CLAUSE on the real protocol: the suspended coroutine of an unfinished parse is part of the model (Model/Abandon.lean: the parser as a state machine driven call by call — ParseTokens, NewInput, EndInput, Stop, Reset, ResetAddNewInput — keeping the rest of the program as the coroutine, and what that program does when iter.Pull's stop() makes its yield return false: the five inline wait loops return SexpEnd without an error and their callers go on reading the lexer). Proved for every parser state, every suspended program and every reset route: after the reset the lexer holds exactly the new text and nothing else survives (abandoned_parse_consumes_nothing, start_forgets, protocol_reset_forgets); the statement orders that respect 'stop the coroutine before the lexer is reset / given input and before the reply is replaced' all give that state (good_orders_agree), the other orders do not (lexer_first_counterexample, reply_first_counterexample); the order of the statements in parser.go is regenerated on every run and must be one of the good ones (reset_stops_coroutine_first, yield_cleared_after_stop). The annotated parser is the parser of the chunking theorems (annotated_parser_is_the_parser), a coroutine is kept exactly when the answer is `more` (suspended_iff_more), and the kept program resumed on further input computes what the original program computes on the concatenation (suspended_program_is_rest_of_run). PROTOCOL = DELIVERY MODEL (stepwise_is_run_partial): for every parser state (any lexer state, reply, suspended program), every list of pieces and every per-iterator fuel F >= fuelFor, the parser driven call by call (ResetAddNewInput/NewInput, ParseTokens after each piece, EndInput, ParseTokens; a `more` keeps the coroutine, a `done` ends the ParsingIter and the next call starts a new one with new fuel) gives the final status, the expressions AND the statuses of all intermediate calls of parseChunks — the formulation all chunk-independence theorems are about — whenever the parse does not end in an error; the step over a `done` is closed by fuel monotonicity (run_fuel_mono: the model has no timeout outcome, fuel can only turn a result into the error outcome, so a non-error parse is the same parse with any larger fuel); with no `done` before the last call also parses that end in an error agree (stepwise_is_run_until_done); and FuelIsEnough (the fuel of the delivery model is never the cause of an error: stated, not proved) implies the statement for ALL parses (stepwise_is_run_of_fuel); by any reset route after any history (stepwise_is_run_after_history). The `parse h`/`parse ei` ops run the real parser/interpreter through systematically enumerated histories of unfinished, failed and complete earlier texts x every reset route and require the result of a fresh parser / a twin interpreter.",
+    note="Trusted: Lean kernel; axioms propext/Classical.choice/Quot.sound; the hand-written model (tied by the lex/parse correspondence = testing, and by table theorems); regexp recognisers are hand-written for the regenerated source strings; strconv.ParseFloat is re-implemented exactly and compared bit for bit. `more iff unfinished` is stated in full (MoreIffUnfinished) but only checked on generated inputs (impl vs Spec.Unfinished), not proved. StepwiseIsRun (call-by-call protocol = delivery model with the pieces known in advance) is proved for every parse that does not end in an error (status, expressions, trace: stepwise_is_run_partial) and for error parses without an intermediate `done` (stepwise_is_run_until_done); NOT proved for parses that end in an error after some call answered `done`: that needs FuelIsEnough (stated in Props/C13: the fuel 4*length+16 of the delivery model is never the cause of an error), because the model has one outcome for syntax errors and exhausted fuel; the implication FuelIsEnough -> StepwiseIsRun IS proved (stepwise_is_run_of_fuel, per text stepwise_is_run_for_text), so the whole gap is that one statement about the delivery model alone. Both models are still computed on every history op and must agree (MODELS-DISAGREE). The unwinding semantics of a stopped coroutine (Model/Abandon.unwind) is hand-written after parser.go and validated by the correspondence only (incl. Stop() without reset, where the dying parse reads queued input); with the statement order 'lexer first' the same model reproduces the seeded defect C13-m3 on all 106586 history ops. A trailing top-level `-`/`+` is an unfinished PREFIX (the next token may be Inf; chunk independence forces the wait) but a finished text (fix C13-02: lone_sign_fixed, sign_at_end_of_finished_input).",
     technique="Lean 4 proof over an executable lexer/parser model (free-monad parser programs, abstraction simulation) + regenerated tables + model/implementation correspondence at every cut position",
     design_ref="DESIGN.md §7 C13",
 )
@@ -31,7 +31,7 @@ def run(rep):
         "Model/Lexer.lean and Model/Parser.lean are hand-written after the Go code (with fixes/C13-*.patch applied); tied by the lex and parse correspondence (differential testing) and by the table theorems of Props/C13 §6",
         "each GetNextToken that follows a successful peek is modelled as 'drop the queue head' (the queue is non-empty at those sites)",
         "the suspended coroutine of an unfinished parse is modelled explicitly (Model/Abandon: residual program, unwinding under a stopped yield, Parser.Reset/ResetAddNewInput/Stop in the statement order of parser.go); the statement order is tied by the regenerated table Generated/ResetOrder (reset_stops_coroutine_first); the unwinding semantics is compared with the real code by the `parse h` ops incl. Stop() without a reset",
-        "StepwiseIsRun (the parser driven call by call = the delivery model with the pieces known in advance) is stated, not proved; the driver computes both on every `parse h` op and reports MODELS-DISAGREE",
+        "StepwiseIsRun (the parser driven call by call = the delivery model with the pieces known in advance) is proved for all parses that do not end in an error and for error parses without an intermediate `done` (stepwise_is_run_partial, stepwise_is_run_until_done, run_fuel_mono); the rest (an error after a `done`) follows from FuelIsEnough (stepwise_is_run_of_fuel, proved), which is stated and not proved; the driver computes both models on every `parse h` op and reports MODELS-DISAGREE",
         "MoreIffUnfinished is stated, not proved; it is tested on every generated input",
         "inputs are sequences of Unicode scalar values (Go's ReadRune turns invalid bytes into U+FFFD before the lexer sees them)",
     ]
